@@ -80,7 +80,55 @@ theorem stripWs_padded (pre post c : Cps) (hpre : ∀ x ∈ pre, isWsCp x = true
 
 theorem wsChar_isWs (c : WsChar) : isWsCp c.cp = true := by cases c <;> decide
 
-theorem urlWord_length (up : Bool × Bool × Bool) : (urlWord up).length = 3 := rfl
+theorem spell_mem (n : Cps) : ∀ (m : Mask) (c : Nat), c ∈ spell m n →
+    c = 0x5C ∨ ∃ d ∈ n, c = d ∨ c = CssVerif.Normalize.upperAscii d := by
+  induction n with
+  | nil => intro m c h; cases m <;> simp [spell, CssVerif.Normalize.spell] at h
+  | cons d t ih =>
+    intro m c h
+    cases m with
+    | nil =>
+      simp only [spell, CssVerif.Normalize.spell, List.mem_cons] at h
+      rcases h with rfl | h
+      · exact Or.inr ⟨c, by simp, Or.inl rfl⟩
+      · rcases ih [] c h with h' | ⟨e, he, h'⟩
+        · exact Or.inl h'
+        · exact Or.inr ⟨e, by simp [he], h'⟩
+    | cons ue m =>
+      obtain ⟨up, esc⟩ := ue
+      have key : ∀ c', (c' = d ∨ c' = CssVerif.Normalize.upperAscii d) →
+          c ∈ (if (esc && !CssVerif.Normalize.isHex c') = true then 0x5C :: c' :: spell m t else c' :: spell m t) →
+          c = 0x5C ∨ ∃ e ∈ d :: t, c = e ∨ c = CssVerif.Normalize.upperAscii e := by
+        intro c' hc' hm
+        have hm' : c = 0x5C ∨ c = c' ∨ c ∈ spell m t := by
+          split at hm
+          · simp only [List.mem_cons] at hm; exact hm
+          · simp only [List.mem_cons] at hm; exact Or.inr hm
+        rcases hm' with h1 | h1 | h1
+        · exact Or.inl h1
+        · subst h1; exact Or.inr ⟨d, by simp, hc'⟩
+        · rcases ih m c h1 with h' | ⟨e, he, h'⟩
+          · exact Or.inl h'
+          · exact Or.inr ⟨e, by simp [he], h'⟩
+      cases up with
+      | true => exact key _ (Or.inr rfl) (by simpa [spell, CssVerif.Normalize.spell] using h)
+      | false => exact key _ (Or.inl rfl) (by simpa [spell, CssVerif.Normalize.spell] using h)
+
+theorem urlWord_noParen (up : Mask) : ∀ c ∈ urlWord up, (c != 0x28) = true := by
+  intro c hc
+  rcases spell_mem _ up c hc with rfl | ⟨d, hd, h⟩
+  · decide
+  · simp only [CssVerif.Proto.cps] at hd
+    have hd' : d = 0x75 ∨ d = 0x72 ∨ d = 0x6C := by simpa using hd
+    rcases hd' with rfl | rfl | rfl <;> rcases h with rfl | rfl <;> decide
+
+theorem dropWhile_all_append (p : Nat → Bool) (a b : Cps) (h : ∀ c ∈ a, p c = true) :
+    (a ++ b).dropWhile p = b.dropWhile p := by
+  induction a with
+  | nil => rfl
+  | cons x xs ih =>
+    simp only [List.cons_append, List.dropWhile_cons, h x (by simp), ↓reduceIte]
+    exact ih (fun c hc => h c (by simp [hc]))
 
 /-- the text of an unquoted URL: no white space at its ends, does not start with a quote -/
 structure UrlPlain (h : Cps) : Prop where
@@ -103,12 +151,15 @@ theorem href_value (r : SHref) (h : r.WF) :
   | str q t => exact stringValue_quoteStr q t h
   | url up pre post q t =>
     simp only [SHref.tok, SHref.value, uriValue]
-    have e1 : ∀ body : Cps, ((urlWord up ++ 0x28 :: (pre.map WsChar.cp ++ (body ++ (post.map WsChar.cp ++ [0x29])))).drop 4).dropLast
-        = pre.map WsChar.cp ++ (body ++ post.map WsChar.cp) := by
+    have e1 : ∀ body : Cps, (((urlWord up ++ 0x28 :: (pre.map WsChar.cp ++ (body ++ (post.map WsChar.cp ++ [0x29])))).dropWhile
+        (fun c => c != 0x28)).drop 1).dropLast = pre.map WsChar.cp ++ (body ++ post.map WsChar.cp) := by
       intro body
-      have : urlWord up ++ 0x28 :: (pre.map WsChar.cp ++ (body ++ (post.map WsChar.cp ++ [0x29]))) =
-          (urlWord up ++ [0x28]) ++ ((pre.map WsChar.cp ++ (body ++ post.map WsChar.cp)) ++ [0x29]) := by simp
-      rw [this, List.drop_left' (by simp [urlWord_length]), List.dropLast_concat]
+      rw [dropWhile_all_append _ _ _ (urlWord_noParen up)]
+      have : pre.map WsChar.cp ++ (body ++ (post.map WsChar.cp ++ [0x29])) =
+          (pre.map WsChar.cp ++ (body ++ post.map WsChar.cp)) ++ [0x29] := by simp
+      simp only [List.dropWhile_cons, bne_self_eq_false, Bool.false_eq_true, ↓reduceIte, List.drop_succ_cons,
+        List.drop_zero]
+      rw [this, List.dropLast_concat]
     have hpre : ∀ x ∈ pre.map WsChar.cp, isWsCp x = true := by
       intro x hx; simp only [List.mem_map] at hx; obtain ⟨c, _, rfl⟩ := hx; exact wsChar_isWs c
     have hpost : ∀ x ∈ post.map WsChar.cp, isWsCp x = true := by
@@ -150,8 +201,14 @@ theorem SHref.tok_val_safe (r : SHref) : SafeVal r.tok.val := by
   cases r with
   | str q h => exact ⟨q.cp, _, rfl, by cases q <;> simp [Quote.cp, delims]⟩
   | url up pre post q h =>
-    obtain ⟨a, b, c⟩ := up
-    exact ⟨_, _, rfl, by cases a <;> simp [delims]⟩
+    obtain ⟨c, cs, hc, hd⟩ := spell_safe (CssVerif.Proto.cps "url") up
+      (nameOk_cps "url" (by decide) ⟨_, _, rfl, by decide⟩)
+    refine ⟨c, cs ++ 0x28 :: (pre.map WsChar.cp ++ ((match q with
+        | some q => quoteStr q h
+        | none => h) ++ (post.map WsChar.cp ++ [0x29]))), ?_, hd⟩
+    simp only [SHref.tok, urlWord]
+    rw [hc]
+    rfl
 
 theorem safe_flat_noStr (m : Mode) (hm : m.endString = false) (t : Tok) (hv : SafeVal t.val) (h1 : t.typ ≠ .eof)
     (h2 : t.typ ≠ .function) : Flat m t := by
